@@ -67,7 +67,12 @@ def js_parse_int(*args):
         end += 1
     if end == 0:
         return float("nan")
-    value = int(text[:end], radix)
+    digits = text[:end].lstrip("0") or "0"
+    if len(digits) > 40:
+        # Only the leading digits can matter for a double (and int() limits its input length)
+        value = int(digits[:40], radix) * radix ** (len(digits) - 40)
+    else:
+        value = int(digits, radix)
     if value == 0 and sign < 0:
         return -0.0
     return norm_number(sign * value)
